@@ -555,9 +555,10 @@ func (in *Interp) assert(cond *sym.Term, tag string) {
 			in.Inconclusive = append(in.Inconclusive, fmt.Sprintf("assert %s (known %s) at %s: no solver decided", tag, id, in.where()))
 		}
 	}
-	// continue under the assertion
+	// continue under the assertion; if it cannot hold at all on this path (a concrete failure), go on
+	// without it so that the obligations of other properties further down are still evaluated
 	if !in.feasible(cond) {
-		panic(pathEnd{kind: "assume"})
+		return
 	}
 	if v, ok := in.modelSays(cond); !ok || !v {
 		in.model = nil
